@@ -38,6 +38,7 @@ func (e *Engine) resetFor(fi *FuncInfo) {
 	e.globalErrs = map[string]*Term{}
 	e.callArgs = map[string][][]Value{}
 	e.dynType = map[string]types.Type{}
+	e.ncalledDirty = nil
 	e.extraStreams = nil
 	e.callN = 0
 	e.nfresh = 0
